@@ -96,7 +96,21 @@ Inductive case :=
      interruption *)
   | CS (limit : nat) (reject : bool) (hs : list kv) (ctl : option bytes) (chunks : list (nat * bytes))
        (jt : option json) (ext_err : bool) (cmp_args : bool)
-       (o_post : list kv) (o_body o_rbp : bytes) (o_err o_inbound o_interrupted : bool).
+       (o_post : list kv) (o_body o_rbp : bytes) (o_err o_inbound o_interrupted : bool)
+  (* a well-formed multipart/form-data body printed from parts (name, filename, content) with
+     boundary b; observed ARGS_POST, FILES, FILES_NAMES, FILES_SIZES, MULTIPART_PART_HEADERS,
+     FILES_COMBINED_SIZE, REQBODY_ERROR or MULTIPART_STRICT_ERROR *)
+  | CM (b : bytes) (parts : list (bytes * bytes * bytes)) (body : bytes)
+       (o_post o_files o_names o_sizes o_hdrs : list kv) (o_combined : bytes) (o_err : bool).
+
+Definition mpart_eqb (a b : mpart) : bool :=
+  bytes_eqb (mp_name a) (mp_name b) && bytes_eqb (mp_filename a) (mp_filename b) && bytes_eqb (mp_content a) (mp_content b).
+Fixpoint mparts_eqb (a b : list mpart) : bool :=
+  match a, b with
+  | [], [] => true
+  | x :: a', y :: b' => mpart_eqb x y && mparts_eqb a' b'
+  | _, _ => false
+  end.
 
 Definition cookie_ord (raw : bytes) : gmap := parse_cookies raw.
 
@@ -167,6 +181,20 @@ Definition ok (c : case) : bool :=
       bytes_eqb (v_request_body t) o_body && bytes_eqb (v_rbp t) o_rbp &&
       Bool.eqb (v_reqbody_error t) o_err && Bool.eqb (bs_inbound s) o_inbound &&
       Bool.eqb (bs_interrupted s) o_interrupted) (json_orders res)
+  | CM b parts body o_post o_files o_names o_sizes o_hdrs o_combined o_err =>
+    let ps := map (fun t => mk_mpart (fst (fst t)) (snd (fst t)) (snd t)) parts in
+    (* the harness' printer is the Coq printer; the specification parser reads the parts back *)
+    bytes_eqb (mp_print b ps) body &&
+    match mp_parse b body with
+    | Some q =>
+      mparts_eqb q ps &&
+      let v := mp_collect lower_ascii q in
+      ms_eqb (cm_find_all (mv_post v)) o_post && ms_eqb (cm_find_all (mv_files v)) o_files &&
+      ms_eqb (cm_find_all (mv_files_names v)) o_names && ms_eqb (cm_find_all (mv_files_sizes v)) o_sizes &&
+      ms_eqb (cm_find_all (mv_part_headers v)) o_hdrs &&
+      bytes_eqb (itoa (N.of_nat (mv_combined v))) o_combined && negb o_err
+    | None => false
+    end
   end.
 
 Definition mismatches (l : list case) : list nat := mismatches_of ok l.
